@@ -90,7 +90,6 @@ CHECKS = {
 }
 
 NOT_APPLICABLE = {
-    "C19": "check under construction (feature-configuration driver); will be claimed once built",
 }
 
 
